@@ -77,6 +77,15 @@ CLAIMED = {
             "connection attempts / late HTTP/2 streams; judged against the ordering model of shutdown (stop accepting, drain, "
             "cancel at the grace bound, lifespan shutdown, return) with exact virtual instants.",
             "the listener is pre-opened by the harness; 'refused' for a late connection means never accepted by the application"),
+    "C18": ("5/C18", "Complete enumeration of every limit value x approach / hit / exceed x arrival shape x worker (h11_max_incomplete_size "
+            "with heads in one read, two reads or dribbled, as first or second request; h2_max_concurrent_streams with 0/1/3 excess "
+            "streams held open; h2_max_header_list_size with one field, many fields or CONTINUATION; keep_alive_max_requests "
+            "sequential and pipelined on HTTP/1 and sequential on HTTP/2; max_requests x jitter x every jitter outcome through "
+            "the patched randint, requests spread over connections) plus seeded variation of sizes, cuts and totals; judged "
+            "against the limit table with exact counts and virtual instants.",
+            "HTTP/2 clients open streams only after the server's SETTINGS; a head of exactly the limit and header blocks within 64 "
+            "bytes of h2_max_header_list_size are not judged; a burst of streams already on the wire when the request maximum is "
+            "reached cannot be told to stop in time and is not judged"),
 }
 
 NOT_APPLICABLE = {
